@@ -750,6 +750,13 @@ func (c14Engine) RunSeed(tier string, seed uint64, idx int) *core.Result {
 	res := &core.Result{Seed: seed, Probes: map[string]int{
 		"warm_hit_served": 0, "hit_with_-o": 0, "invalid_entry_rearmed": 0, "failure_after_cache_writer_armed": 0,
 		"stdin_spooled_to_temp_file": 0, "env_without_usable_cache": 0}, Faults: map[string]int{}, Extended: map[string]int{}}
+	loadHelpTables()
+	if idx == 0 {
+		for _, d := range helpDrift {
+			res.Extended[d]++
+		}
+		res.Probes["help_texts_compared_with_option_tables"] = len(cachedCommands)
+	}
 	sc := genHistory(r, tier)
 	core.CurrentSig = "cli"
 	x := execCli("C14", sc, res, wrapC14)
